@@ -982,6 +982,27 @@ func Plain() {
 	Touch(&plainObj, true, 0)
 }
 
+// LiveOthers returns how many threads other than the calling one have not
+// finished. A harness calls it at the instant an operation that promises "no
+// goroutine remains" returns. (Folded into the caller's hash: it is an
+// observation of the other threads' progress.)
+func LiveOthers() int {
+	s := S
+	if s == nil {
+		return 0
+	}
+	n := 0
+	for _, t := range s.threads {
+		if t != s.cur && !t.done {
+			n++
+		}
+	}
+	if s.cur != nil {
+		s.cur.hb = mix(s.cur.hb, uint64(n)+0x11fe)
+	}
+	return n
+}
+
 // Infra reports a situation the harness machinery cannot handle (not a property
 // violation): the process exits with status 2, which the driver reports as an
 // infrastructure error and never as a VIOLATION.
